@@ -155,3 +155,6 @@ def run(chk, replay):
         chk.traces += 1
         if v:
             chk.violation(sigs, v, {"sc": sc, "cfgseed": cfgseed, "fields": fields, "axes": axes, "sigs": sigs})
+    # the command line layer (spec/Cli.tla): mandoline's options, also typed with the value zero
+    from harness import cli
+    cli.phase(chk, "mandoline")
